@@ -306,6 +306,15 @@ class Interp:
             raise Unsupported('nonlocal %s not found' % name)
         if name in info.global_names:
             raise Unsupported('assignment to global %s' % name)
+        if type(value) is list and self.reg.local_shapes:
+            declared = self.reg.local_shapes.get(info)
+            if declared and name in declared:
+                # contract-directed representation: this local list is a symbolic mutable list from the start
+                from .mlist import MList, from_concrete
+                if value:
+                    value = from_concrete(self, value, name)
+                else:
+                    value = MList(self, self.st.fresh_name(name), declared[name].shape())
         frame.locals[name] = value
 
     @staticmethod
@@ -519,6 +528,7 @@ class Interp:
         if m is None:
             m = models.lookup_model(cls)
         if m is not None:
+            self.st.used_models.add(_qn(cls))
             return m(self, args, kwargs)
         if issubclass(cls, enum.Enum) or not _is_repo_class(cls):
             if issubclass(cls, BaseException) and not _is_repo_class(cls):
@@ -1143,6 +1153,19 @@ class Interp:
 
     def e_IfExp(self, node, frame):
         c = self.eval(node.test, frame)
+        if self.st.no_fork:
+            # inside a quantifier body a case split is not possible: a conditional expression with scalar
+            # branches becomes an if-then-else term (each branch evaluated under its condition)
+            t = self.truth(c)
+            if not isinstance(t, bool):
+                with self.st.scope(t.t):
+                    a = self.eval(node.body, frame)
+                with self.st.scope(z3.Not(t.t)):
+                    b = self.eval(node.orelse, frame)
+                ka, kb = _kind(a), _kind(b)
+                if ka is not None and ka == kb and ka != 'none':
+                    return wrap(z3.If(t.t, to_z3(a), to_z3(b)))
+                raise Unsupported('conditional expression with non-scalar branches inside a quantifier body')
         if self.branch(c):
             return self.eval(node.body, frame)
         return self.eval(node.orelse, frame)
